@@ -117,7 +117,11 @@ def _sens(text, goal, param):
     return {"sensitivity": _values(s.get(drb.delta * se(goal)))}
 
 
+P_GAM_A = "r = 2\nm = 1\nx = 0\ny = 0\nwhile true:\n    g = Gamma(r, 1)\n    h = Laplace(m, 1)\n    x = x + g\n    y = y + h**2\nend\n"
+P_GAM_B = "r = 3\nm = 2\nx = 0\ny = 0\nwhile true:\n    g = Gamma(r, 1)\n    h = Laplace(m, 1)\n    x = x + g\n    y = y + h**2\nend\n"
 OPS = {
+    "gamA": lambda: _moments(P_GAM_A, ["x", "x**2", "y"]),
+    "gamB": lambda: _moments(P_GAM_B, ["x", "x**2", "y"]),
     "finA": lambda: _moments(P_FIN_A, ["x", "x**2", "c**3"]),
     "finB": lambda: _moments(P_FIN_B, ["y", "y**2", "d**3"]),
     "finC": lambda: _moments(P_FIN_C, ["x", "x**2", "c**3"]),
